@@ -228,6 +228,28 @@ CLAIMED["C15"] = {
     "design_ref": "DESIGN.md section 8, C15",
 }
 
+CLAIMED["C13"] = {
+    "text": "Theorems about the model of the stave-level code (byte-wise decoder, lane checks, frame checks, ItsReadoutFrameValidator): "
+            "C13_decoder_recovers_skeleton (for EVERY lane produced by the independent encoder Spec/AlpideEnc.v -- any chips, bunch counters, "
+            "trailer flags, any number of region headers, short/long hits with arbitrary 2nd/3rd bytes, busy and other one-byte words, idle "
+            "bytes, fatal extensions -- the decoder keeps exactly the skeleton; by induction over items with a 256-entry byte-class table), "
+            "C13_hits_irrelevant / C13_frame_hits_irrelevant (verdict and readout-flag counters of a frame are equal for frames that differ only "
+            "in hit content), C13_flags_are_trailer_counts, C13_lane_bytes (lane bytes = concatenation of its words' data under any interleaving / "
+            "packet split), C13_lane_ok_iff / C13_lane_errors_iff (a lane passes iff no documented lane rule is broken; which [E9003..5] are "
+            "named), C13_lane_count_rule (lane count / IB grouping as documented, incl. the u64 wrap), C13_frame_verdict (messages only at the "
+            "frame start; [E72/73] iff the lane rule fails against lanes that announced FATAL in EARLIER frames; [E74/75] iff a lane rule or the "
+            "cross-lane bunch counter rule is broken; flags forwarded; fatal list extended after the check, duplicate-free -- two regenerated "
+            "facts). Tied to the code by the real LinkValidator (harness) against the extracted model token by token (lane/sub-check tags) and "
+            "against an independent Python encoder + rule oracle over 14 frame kinds x 3 encodings (no hits / hits / adversarial) x barrels. "
+            "Defects F10/F9 (announcing frame flagged; repeated announcement counted twice) were found by this check and repaired by a fix: commit.",
+    "note": "Trusted: Coq kernel + vm_compute (byte table); gen translator; harness; extraction + driver; the Python encoder/oracle; message "
+            "parsing. Lanes with neither a chip nor a fatal word crash the decoder (F8): outside the theorems' hypothesis (lane_total), a C04 "
+            "matter. Frames that still carry a lane known to be fatal are not judged on [E72/73] by the oracle (the documented rule is silent). "
+            "[E701] (no data words) is compared model vs code and against the oracle, without a separate theorem.",
+    "technique": "Coq proof (encoder/decoder simulation by induction, iff-theorems for lane and frame rules, regenerated ordering facts) + differential correspondence with the real validator and an independent oracle",
+    "design_ref": "DESIGN.md section 8, C13",
+}
+
 ALL = ["C%02d" % i for i in range(1, 21)]
 PENDING_REASON = "not claimed yet: the model/proof for this property is still under construction in this development (see DESIGN.md section 12 build order); no check is registered until its theorem file compiles without admits and its correspondence stream runs"
 
@@ -275,7 +297,7 @@ def main():
 
 
 HOOK_COMMITS = ["f32fed4"]
-FIX_COMMITS = ["2eb10e8", "024b878", "afd2aa3", "f731241", "add603d", "adf846c"]
+FIX_COMMITS = ["2eb10e8", "024b878", "afd2aa3", "f731241", "add603d", "adf846c", "02e4e23"]
 NOT_APPLICABLE = {}
 
 if __name__ == "__main__":
